@@ -542,7 +542,7 @@ fn payload_values_case<const N: usize>() {
 #[kani::stub(fcgi::ProtocolVariables::write_response, crate::verif_kani::write_response_model)]
 fn c02_payload_values_3() { payload_values_case::<3>(); }
 
-// @harness name=c02_payload_values_2 props=C02,C04,C03 tier=thorough timeout=7000 rmbody=ioerr,nogrow mem=30 dead=2
+// @harness name=c02_payload_values_2 props=C02,C04,C03 tier=thorough timeout=7000 rmbody=ioerr,nogrow mem=30 dead=4
 // @bound State::Values with any accumulated set; 24-byte buffer, fixed geometry with exactly 2 raw bytes (symbolic contents: at most the empty pair), payload_rem 1..65535; parse_name / write_response replaced by the E5 models; E8
 // @functions stream::Parser::parse_payload, NVIter<&[u8]>::next, parser::parse_nv_var
 #[kani::proof]
